@@ -153,5 +153,13 @@ CHECKS += [
         "note": "trusted: as C11; the reference set model and the forgery surgery in checks/c12.py",
     },
 ]
+CHECKS += [
+    {
+        "id": "C13", "engine": "E5 OSCORE environment + E6 effect interposer + Hypothesis", "level": "fault_enumeration",
+        "technique": "fault enumeration: for generated protect/unprotect/restart histories every crash point between two intercepted file-system effects of aiocoap.oscore is injected (with and without a torn unsynced write), followed by reload; history invariant over all partial IVs ever issued and all requests ever accepted",
+        "text": "Each generated history is run once uninterrupted to count file-system effects (mkstemp, write, flush, fsync, replace, unlink) and then once per (lifetime, effect) with a simulated crash there, reloading and continuing; the oracle checks global uniqueness and monotonicity of partial IVs, refusal at 2^40-1, that reloads never start at a used number nor fail, and that no request accepted earlier is accepted again after clean or unclean stops. Crash points are exhaustive per history; histories are sampled.",
+        "note": "trusted: the interposer in checks/c13.py (process-level crash model; no power-loss metadata reordering), as C11 for the crypto stack",
+    },
+]
 claimed = {c["id"] for c in CHECKS}
 NOT_APPLICABLE = [{"property_id": i, "reason": "check not built yet in this session (planned, see DESIGN.md section 3); no claim is made"} for i in ALL if i not in claimed]
